@@ -56,7 +56,7 @@ def helper_shape(node) -> Optional[str]:
     if not isinstance(node, ast.FunctionDef):
         return None
     for d in node.decorator_list:
-        if not (isinstance(d, ast.Name) and d.id in ("staticmethod", "classmethod")):
+        if not (isinstance(d, ast.Name) and d.id in ("staticmethod", "classmethod", "property")):
             return None
     a = node.args
     if a.vararg or a.kwarg or a.posonlyargs:
@@ -68,9 +68,11 @@ def helper_shape(node) -> Optional[str]:
         if isinstance(n, (ast.Yield, ast.YieldFrom, ast.Await, ast.Global, ast.Nonlocal)):
             return None
     for st in node.body:
+        if isinstance(st, ast.FunctionDef) and not st.decorator_list:
+            continue  # a local function defined at the top of the helper moves into the caller with the body
         for n in ast.walk(st):
             if isinstance(n, (ast.FunctionDef, ast.AsyncFunctionDef, ast.ClassDef)):
-                return None  # nested definitions: keep the helper opaque
+                return None  # deeper nested definitions: keep the helper opaque
     rets = [n for n in _walk_local(node) if isinstance(n, ast.Return)]
     if len(body) == 1 and isinstance(body[0], ast.Return) and body[0].value is not None:
         return "expr"
@@ -90,6 +92,8 @@ class _Unsupported(Exception):
 
 
 def _has_return(st) -> bool:
+    if isinstance(st, (ast.FunctionDef, ast.AsyncFunctionDef, ast.ClassDef)):
+        return False  # a local definition: its returns are its own
     return any(isinstance(n, ast.Return) for n in _walk_local(st)) or isinstance(st, ast.Return)
 
 
@@ -146,6 +150,20 @@ class _Rename(ast.NodeTransformer):
     def visit_arg(self, node):
         return node
 
+    def visit_FunctionDef(self, node):
+        a = node.args
+        shadow = {x.arg for x in a.posonlyargs + a.args + a.kwonlyargs} | ({a.vararg.arg} if a.vararg else set()) | ({a.kwarg.arg} if a.kwarg else set())
+        inner = _Rename({k: v for k, v in self.subst.items() if k not in shadow}, {k: v for k, v in self.rename.items() if k not in shadow})
+        node.body = [inner.visit(st) for st in node.body]
+        return node
+
+    def visit_Lambda(self, node):
+        a = node.args
+        shadow = {x.arg for x in a.posonlyargs + a.args + a.kwonlyargs}
+        inner = _Rename({k: v for k, v in self.subst.items() if k not in shadow}, {k: v for k, v in self.rename.items() if k not in shadow})
+        node.body = inner.visit(node.body)
+        return node
+
 
 def _bind(helper: ast.FunctionDef, call: ast.Call, recv: Optional[ast.AST], kind: str) -> Optional[Dict[str, ast.AST]]:
     if any(isinstance(x, ast.Starred) for x in call.args) or any(k.arg is None for k in call.keywords):
@@ -189,6 +207,8 @@ def instantiate(helper: ast.FunctionDef, binds: Dict[str, ast.AST], tag: str, ra
     body = copy.deepcopy(_body_wo_doc(helper))
     stored: Set[str] = set()
     for st in body:
+        if isinstance(st, ast.FunctionDef):
+            continue
         for n in ast.walk(st):
             if isinstance(n, ast.Name) and isinstance(n.ctx, (ast.Store, ast.Del)):
                 stored.add(n.id)
@@ -230,10 +250,13 @@ class Inliner:
         for q, fi in program.functions.items():
             if q in known:
                 continue
-            if not (_is_private(fi.name) or fi.parent is not None):
+            is_prop = isinstance(fi.node, ast.FunctionDef) and any(isinstance(d, ast.Name) and d.id == "property" for d in fi.node.decorator_list)
+            if not (_is_private(fi.name) or fi.parent is not None or is_prop):
                 continue
             sh = helper_shape(fi.node)
             if sh is None:
+                continue
+            if is_prop and (fi.cls is None or fi.parent is not None or len(fi.node.args.args) != 1):
                 continue
             fi.node._mdsa_in_class = fi.cls is not None and fi.parent is None
             if self._calls_itself(fi):
@@ -343,10 +366,71 @@ class Inliner:
 
     def _rewrite_function(self, fi) -> int:
         self._count = 0
+        self._property_reads_as_calls(fi)
+        before = {n.name for n in fi.node.body if isinstance(n, ast.FunctionDef)}
         fi.node.body = self._block(fi, fi.node.body)
         if self._count:
             ast.fix_missing_locations(fi.node)
+            if {n.name for n in ast.walk(fi.node) if isinstance(n, ast.FunctionDef) and n is not fi.node} - before - set(fi.nested):
+                self._reindex_nested(fi)
         return self._count
+
+    def _property_reads_as_calls(self, fi):
+        """`self.p` where p is an unknown (inlinable) property of the class: analysed as the call `self.p()`"""
+        cls = fi.cls
+        c = fi
+        while cls is None and c is not None:
+            c = c.parent
+            cls = c.cls if c is not None else None
+        if cls is None:
+            return
+        props = {}
+        for q, h in self.helpers.items():
+            if any(isinstance(d, ast.Name) and d.id == "property" for d in h.node.decorator_list):
+                props[h.name] = h
+        if not props:
+            return
+        outer = self
+
+        class T(ast.NodeTransformer):
+            def visit_Attribute(self, node):
+                self.generic_visit(node)
+                if isinstance(node.ctx, ast.Load) and node.attr in props and isinstance(node.value, ast.Name) and node.value.id == "self":
+                    r = outer.P.lookup_method(cls.qual, node.attr)
+                    if r is not None and r[1] is props[node.attr] and fi is not props[node.attr]:
+                        return ast.copy_location(ast.Call(func=node, args=[], keywords=[]), node)
+                return node
+
+            def visit_FunctionDef(self, node):
+                return node if node is not fi.node else self.generic_visit(node)
+
+        T().visit(fi.node)
+
+    def _reindex_nested(self, fi):
+        """local functions that came in with an inlined helper body are registered as nested functions of the caller"""
+        from .loader import FuncInfo, _iter_defs
+
+        P = self.P
+
+        def drop(f_):
+            for sub in f_.nested.values():
+                drop(sub)
+                P.functions.pop(sub.qual, None)
+
+        def index(node, prefix, parent):
+            q = f"{prefix}.{node.name}"
+            nf = FuncInfo(q, fi.module, fi.cls, node, parent)
+            P.functions[q] = nf
+            for sub in _iter_defs(node.body):
+                if isinstance(sub, (ast.FunctionDef, ast.AsyncFunctionDef)):
+                    nf.nested[sub.name] = index(sub, q + ".<locals>", nf)
+            return nf
+
+        drop(fi)
+        fi.nested = {}
+        for sub in _iter_defs(fi.node.body):
+            if isinstance(sub, (ast.FunctionDef, ast.AsyncFunctionDef)):
+                fi.nested[sub.name] = index(sub, fi.qual + ".<locals>", fi)
 
     def _block(self, fi, body: List[ast.stmt]) -> List[ast.stmt]:
         out: List[ast.stmt] = []
